@@ -21,10 +21,10 @@ ASSUMPTIONS = ["host patterns are judged by hand-written predicates per listed p
                "duplicate Host headers are not sent (gateway-dependent folding)"]
 
 PREFIXES = ["", "/a", "/a/b", "/ab", "/b", "/é"]
-PATHS = ["", "/", "/a", "/a/", "/ab", "/abc", "/a/b", "/a/b/", "/a/b/c", "/a/bc", "/b/a", "a", "/é", "/é/ü", "/éa", "/a//b"]
-ROOTS = ["", "/r"]
-HOST_PATTERNS = [r"a\.com", r"(www\.)?a\.com", r"a.com", r".*", r"a\.com|b\.com"]
-HOSTS = ["a.com", "www.a.com", "xa.com", "aXcom", "a.com.evil", "a.com:80", "A.COM", "", None, "a.com\n", "b.com", "b.com.evil", "www.a.comx"]
+PATHS = ["", "/", "/a", "/a/", "/ab", "/abc", "/a/b", "/a/b/", "/a/b/c", "/a/bc", "/b/a", "a", "/é", "/é/ü", "/éa", "/a//b", "/a/x\ny", "/x\n"]
+ROOTS = ["", "/r", "/r/", "/"]
+HOST_PATTERNS = [r"a\.com", r"(www\.)?a\.com", r"a.com", r".*", r"a\.com|b\.com", r"caf.\.com"]
+HOSTS = ["a.com", "www.a.com", "xa.com", "aXcom", "a.com.evil", "a.com:80", "A.COM", "", None, "a.com\n", "b.com", "b.com.evil", "www.a.comx", "caf\xe9.com", "caf\xc3\xa9.com"]
 
 
 def host_ref(pattern, h):
@@ -38,6 +38,8 @@ def host_ref(pattern, h):
         return "\n" not in h
     if pattern == r"a\.com|b\.com":
         return h in ("a.com", "b.com")
+    if pattern == r"caf.\.com":
+        return len(h) == 8 and h[:3] == "caf" and h[4:] == ".com" and h[3] != "\n"
     raise KeyError(pattern)
 
 
@@ -80,7 +82,8 @@ def ref_dispatch(tree, root, path, ident=()):
 
 def request(iface, app, root, path, host=None, log=None):
     headers = [] if host is None else [("Host", host)]
-    req = SV.AReq(path=path, root=root, headers=headers)
+    # without a Host header the gateway still knows the server's own name: it must not stand in for the header
+    req = SV.AReq(path=path, root=root, headers=headers, server=("a.com", 80) if host in (None, "") else ("testserver", 80))
     if iface == "wsgi":
         env = SV.to_environ(req)
         before = {k: v for k, v in env.items()}
